@@ -488,3 +488,11 @@ def vary(run, rng):
                 if key in kw and rng.random() < 0.4:
                     kw[key] = rng.choice([0.0, T / 32, T / 4, T])
         ops.insert(rng.randint(k + 1, len(ops)), o)
+
+
+def shape(run):
+    specs = run['init']['pool']
+    counts = [len(sp['s']) for sp in specs]
+    kinds = sorted(set((o['op'], o.get('what', '')) for o in run['ops']))
+    return digest([run['swarm']['built'], bool(run['faults'].get('flips')), bool(run['swarm'].get('audit')),
+                   len(counts), sum(1 for c in counts if c == 0), sum(1 for c in counts if c == 1), kinds])
